@@ -62,7 +62,7 @@ impl C14 {
     }
 
     /// signature with registers named (mapped back through `back`)
-    fn sig(p: &Program, back: &BTreeMap<Reg, Reg>) -> Result<Vec<(String, i64, String, String)>, String> {
+    fn sig(p: &Program, back: &BTreeMap<Reg, Reg>, label_back: &BTreeMap<String, String>) -> Result<Vec<(String, i64, String, String)>, String> {
         let r = render(p, &[]);
         let run = imp::analyze_text(&r.text).map_err(|p| p.0)?;
         let mut v: Vec<(String, i64, String, String)> = run
@@ -77,6 +77,15 @@ impl C14 {
                     .position(|n| *n == text)
                     .map(|i| rn(*back.get(&(i as Reg)).unwrap_or(&(i as Reg))).to_string())
                     .unwrap_or_default();
+                // a message that lists labels lists them in an order that does not depend on
+                // how they are called (mapped back through the renaming)
+                let role = match d.title.strip_prefix("Labels not defined: ") {
+                    Some(list) => format!(
+                        "{role}|{}",
+                        list.split(", ").map(|n| label_back.get(n).cloned().unwrap_or_else(|| n.to_string())).collect::<Vec<_>>().join(",")
+                    ),
+                    None => role,
+                };
                 (code, si, role, reg)
             })
             .collect();
@@ -138,7 +147,7 @@ impl Property for C14 {
             return;
         };
         let ident = BTreeMap::new();
-        let Ok(base) = Self::sig(&prog, &ident) else {
+        let Ok(base) = Self::sig(&prog, &ident, &BTreeMap::new()) else {
             acc.count("analysis_panicked", 1);
             return;
         };
@@ -273,7 +282,8 @@ impl Property for C14 {
             let back: BTreeMap<Reg, Reg> = full.iter().map(|(a, b)| (*b, *a)).collect();
             acc.count("renamed_programs", 1);
             acc.count("traces", 1);
-            match Self::sig(&renamed, &back) {
+            let label_back: BTreeMap<String, String> = labelmap.iter().map(|(a, b)| (b.clone(), a.clone())).collect();
+            match Self::sig(&renamed, &back, &label_back) {
                 Ok(s) => {
                     if s != base {
                         let missing: Vec<_> = base.iter().filter(|x| !s.contains(x)).collect();
